@@ -123,4 +123,48 @@ theorem forRange_fold {α ρ σ : Type} (g : σ → α → σ) (body : α → σ
   | nil => simp [forRange]
   | cons x rest ih => simp [forRange, h, ih]
 
+/-- a body that breaks with `true` when `p x` holds and otherwise leaves the flag alone -/
+theorem forRange_anyBrk {α ρ : Type} (p : α → Bool) (body : α → Bool → Ctl ρ Bool)
+    (h : ∀ x st, body x st = if p x then .brk true else .next st) (xs : List α) (st : Bool) :
+    forRange xs st body = .done (xs.any p || st) := by
+  induction xs with
+  | nil => simp [forRange]
+  | cons x rest ih =>
+    by_cases hp : p x = true
+    · simp [forRange, h, hp]
+    · simp [forRange, h, hp, ih]
+
+/-- first element on which `f` fails before any element on which it says `true` (left), else
+whether some element said `true` (right): the shape of "try each pattern, stop at the first match,
+give up on the first error" -/
+def scan {α : Type} (f : α → Option Bool) : List α → Sum α Bool
+  | [] => .inr false
+  | x :: rest => match f x with
+    | none => .inl x
+    | some true => .inr true
+    | some false => scan f rest
+
+theorem forRange_scan {α ρ : Type} (f : α → Option Bool) (mkErr : α → ρ) (body : α → Bool → Ctl ρ Bool)
+    (h : ∀ x st, body x st = match f x with
+      | none => .ret (mkErr x) | some true => .brk true | some false => .next st)
+    (xs : List α) (st : Bool) :
+    forRange xs st body = match scan f xs with
+      | .inl x => .ret (mkErr x) | .inr true => .done true | .inr false => .done st := by
+  induction xs with
+  | nil => simp [forRange, scan]
+  | cons x rest ih =>
+    simp only [forRange, scan, h]
+    cases hx : f x with
+    | none => simp
+    | some b => cases b <;> simp [ih]
+
+theorem scan_inl {α : Type} {f : α → Option Bool} {xs : List α} {x : α} (h : scan f xs = .inl x) : f x = none := by
+  induction xs with
+  | nil => simp [scan] at h
+  | cons y rest ih =>
+    simp only [scan] at h
+    cases hy : f y with
+    | none => rw [hy] at h; simp at h; rw [← h]; exact hy
+    | some b => rw [hy] at h; cases b <;> simp at h; exact ih h
+
 end KM.Go
